@@ -384,13 +384,31 @@ def run_case(spec):
                 if still_open == 1:
                     viol.append({"key": "C13/no-connectionLost-when-the-wormhole-closes", "msg": "%s: both wormholes are closed, the protocol saw %s and was never told that its connection is gone" % (p_.name, kinds_[-3:]),
                                  "witness": wit()})
+    # half-closeable protocols: each direction's end is announced exactly once - never twice, and once the wormholes are
+    # closed both have been announced (connectionLost itself is the recorded finding for these protocols)
+    half_judged = 0
+    for p_ in all_protos:
+        if not isinstance(p_, HalfRecProto):
+            continue
+        kinds_ = [e[0] for e in p_.events]
+        if "made" not in kinds_:
+            continue
+        half_judged += 1
+        nr, nw = kinds_.count("read-lost"), kinds_.count("write-lost")
+        if nr > 1 or nw > 1:
+            viol.append({"key": "C13/halfcloseable/direction-lost-twice", "msg": "%s: readConnectionLost x%d, writeConnectionLost x%d (%s)" % (p_.name, nr, nw, kinds_[-5:]), "witness": wit()})
+            break
+        if dp.a.closed and dp.b.closed and "lost" not in kinds_ and (nr == 0 or nw == 0):
+            viol.append({"key": "C13/halfcloseable/direction-never-lost-although-the-wormhole-closed",
+                         "msg": "%s: both wormholes are closed; readConnectionLost x%d, writeConnectionLost x%d (%s)" % (p_.name, nr, nw, kinds_[-5:]), "witness": wit()})
+            break
     world.finish()
     nsub = len(_created)
     nontrivial = trace_digest(sch) if (nsub and closes) else None
     benign = {"CloseForMissingSubchannelError", "DataForMissingSubchannelError"}
     return {"violations": viol, "nontrivial": nontrivial,
             "counters": {"subchannels": nsub, "closes": closes, "writes_after_close": writes_after_close, "writes_right_after_close": len(early_wac), "unencodable_names_tried": bad_name["tried"], "opens_refused_by_factory": refusals, "waiting_opens_declined_by_a_late_listener": int(bool(refusals) and spec["seed"] % 4 == 0 and not spec["expected"]), "subchannels_open_at_wormhole_close": still_open, "half_closed_subchannels_at_wormhole_close": half_open_at_close_before, "calls_from_inside_protocol_callbacks": drv.reactions_done, "errors_escaping_connectionLost": drv.escaped, "false_factories": drv.falsy_factories, "undeclared_opens": undeclared,
-                         "late_listens": late_listens, "half_protocols": sum(isinstance(p, HalfRecProto) for p in all_protos),
+                         "late_listens": late_listens, "half_closeable_protocols_judged_per_direction": half_judged, "half_protocols": sum(isinstance(p, HalfRecProto) for p in all_protos),
                          "opens": len(drv.opens), "connects_around_wormhole_close": len(late), "notrans_seen": len(MON.notrans)},
             "sets": {"connects_around_wormhole_close": late_outcomes, "write_after_close_errors": sorted({e for (_, e, _) in wac_errors if e} | {e[1] for e in early_wac if e[1]}),
                      "logged_errors": sorted({e[0] for e in MON.errors}), "dilation_notrans": ["%s.%s/%s" % k for k in set(MON.notrans)]},
